@@ -520,7 +520,117 @@ def m_debug_nameless(rng, td):
     return "debug-nameless/variant"
 
 
-MUTATORS = [m_dup_trait, m_dup_trait_field, m_dup_param, m_dup_param, m_dup_rank, m_dup_into_type, m_dup_into_field,
+def m_pair_both_on_field(rng, td):
+    """PartialEq + Eq (PartialOrd + Ord) are educed together and set the same thing: a field that carries an attribute
+    under both names carries it twice (the values may even contradict each other)"""
+    pairs = [(a, b) for a, b in (("PartialEq", "Eq"), ("PartialOrd", "Ord")) if a in td.traits and b in td.traits]
+    if not pairs:
+        return None
+    a, b = rng.choice(pairs)
+    v, f = pick_field(rng, td)
+    if f is None:
+        return None
+    for k in (a, b):
+        f.sem.pop(k, None)
+    vals = ["(ignore)", " = false", "(ignore = false)", "(ignore(true))"] + (["(rank = 3)", "(rank(-1))"] if a == "PartialOrd" else [])
+    two = [a + rng.choice(vals), b + rng.choice(vals)]
+    rng.shuffle(two)
+    f.sem.setdefault("_raw", []).extend(two)
+    return "trait-twice/field/%s+%s" % (a, b)
+
+
+def m_variant_debug_twice(rng, td):
+    """Debug twice on one variant: in one list, or on two attribute lines (possibly with another trait's line between)"""
+    if td.kind != "enum" or "Debug" not in td.traits:
+        return None
+    vs = [v for v in td.variants if v.style != "unit"]
+    if not vs:
+        return None
+    v = rng.choice(vs)
+    v.sem.pop("Debug", None)
+    first = rng.choice(["Debug = Alpha", "Debug(name = Alpha)", "Debug(name = \"Alpha\")", "Debug(rename = Alpha)"])
+    second = rng.choice(["Debug(named_field = %s)" % ("true" if v.style == "named" else "false"), "Debug(name = Beta)", "Debug = Alpha"])
+    two = [first, second]
+    rng.shuffle(two)
+    if rng.random() < 0.4:
+        v.sem.setdefault("_raw", []).append(", ".join(two))
+    else:
+        v.sem.setdefault("_raw", []).extend(two)
+    return "trait-twice/variant"
+
+
+def m_variant_trailing_foreign(rng, td):
+    """a trait that is not educed, written after the variant's own Debug entry inside the same list"""
+    if td.kind != "enum" or "Debug" not in td.traits:
+        return None
+    absent = [t for t in ("Hash", "Clone", "PartialEq", "PartialOrd", "Default") if t not in td.traits]
+    vs = [v for v in td.variants if v.style != "unit"]
+    if not absent or not vs:
+        return None
+    v = rng.choice(vs)
+    v.sem.pop("Debug", None)
+    t = rng.choice(absent)
+    v.sem.setdefault("_raw", []).append("Debug = Alpha, %s" % rng.choice([t, t + " = false", t + "(ignore)"]))
+    return "trait-not-educed/variant-after-own"
+
+
+BAD_VALUES = {
+    "Debug": ["name = 5", "method = 5", "method(1 + 1)", "name(a b)"],
+    "PartialEq": ["method = 5", "method(1 + 1)"],
+    "Hash": ["method = 5", "method(1 + 1)"],
+    "PartialOrd": ["rank = \"first\"", "rank = 1, rank(2)", "rank(first)", "method = 5", "rank = 1.5"],
+    "Ord": ["rank = \"first\"", "rank = 1, rank(2)", "rank(first)", "method = 5", "rank = 1.5"],
+}
+
+
+def m_bad_value_next_to_ignore(rng, td):
+    """a parameter with a value of the wrong kind stays wrong when the field is ignored, whichever comes first"""
+    ts = [t for t in BAD_VALUES if t in td.traits and not (t == "PartialOrd" and "Ord" in td.traits)]
+    if not ts:
+        return None
+    t = rng.choice(ts)
+    v, f = pick_field(rng, td)
+    if f is None:
+        return None
+    for k in (t, {"PartialOrd": "Ord", "Ord": "PartialOrd"}.get(t, t)):
+        f.sem.pop(k, None)
+    two = [rng.choice(["ignore", "ignore = true", "ignore(true)"]), rng.choice(BAD_VALUES[t])]
+    if rng.random() < 0.5:
+        two.reverse()
+    f.sem.setdefault("_raw", []).append("%s(%s)" % (t, ", ".join(two)))
+    return "bad-value-next-to-ignore/%s/%s" % (t, "ignore-first" if two[0].startswith("ignore") else "ignore-last")
+
+
+class TextTd:
+    extra_items = ()
+
+
+def text_cases():
+    """hand-laid-out requests (the order of the entries matters, which the random layouts do not control)"""
+    out = []
+    body = "pub struct Ty {\n    pub a: u8,\n    pub b: u16,\n}\n"
+    head = "#[derive(::educe::Educe)]\n"
+    # Into is the only trait that may be listed repeatedly: a second listing of any other trait stays refused next to it
+    for t, again in (("Debug", "Debug(name = Renamed)"), ("Debug", "Debug(named_field = false)"), ("Clone", "Clone"),
+                     ("PartialEq", "PartialEq(bound = false)"), ("Hash", "Hash"), ("Default", "Default(new)")):
+        for order in ("II-T-T", "I-T-I-T", "T-II-T", "T-T-II", "I-T-T-I"):
+            ents, seen_i = [], 0
+            for tok in order.replace("II", "I-I").split("-"):
+                if tok == "I":
+                    ents.append("Into(u8)" if seen_i == 0 else "Into(u16)")
+                    seen_i += 1
+                else:
+                    ents.append(t if t not in ents else again)
+            for lay in ("lines", "one"):
+                bad = head + ("".join("#[educe(%s)]\n" % e for e in ents) if lay == "lines" else "#[educe(%s)]\n" % ", ".join(ents)) + body
+                good_ents = [e for e in ents if e != again] if again != t else ents[:ents.index(t) + 1] + [e for e in ents[ents.index(t) + 1:] if e != t]
+                twin = head + "#[educe(%s)]\n" % ", ".join(good_ents) + body
+                out.append(("trait-twice/type/next-to-two-into", bad, twin))
+    return out
+
+
+MUTATORS = [m_dup_trait, m_dup_trait_field, m_pair_both_on_field, m_variant_debug_twice, m_variant_trailing_foreign,
+            m_bad_value_next_to_ignore, m_dup_param, m_dup_param, m_dup_rank, m_dup_into_type, m_dup_into_field,
             m_default_variant, m_deref_designation, m_into_designation, m_into_ambiguous, m_trait_not_educed, m_unknown_trait,
             m_wrong_param, m_wrong_param, m_name_on_positional, m_unit_variant, m_debug_nameless, m_alias_dup, m_alias_dup]
 
@@ -645,6 +755,8 @@ def main(tier, seed, scale=1.0):
             if g is None:
                 continue
             cases.append(("c%d" % k,) + g)
+        if k0 == 0:
+            cases += [("t%d" % i, cls, TextTd, bad, twin, None) for i, (cls, bad, twin) in enumerate(text_cases())]
         feed = []
         for cid, cls, td, bad, twin, base in cases:
             feed.append((cid, bad.replace("::educe::Educe", "Educe")))
